@@ -9,6 +9,15 @@ Oracles (all on the real code):
  * `json.dumps(asjson(x), allow_nan=True)` is the acceptance test of "JSON-able", for grammar
    models, ASTs, object models and Python structures built by semantic actions (cycles, shared
    sub-lists, exotic values);
+ * concurrent slice: K in {2,4,8} threads released by a barrier convert (a) the same grammar model, (b) the same
+   parse result (AST / object model / action-built structure with a self-rendering user value in it), (c) per-thread
+   structures sharing one sub-object, (d) structures with real cycles, through asjson(x), x.asjson(), x.asjsons(),
+   asjsons(x), json.dumps(asjson(x)), Grammar.load/loads of the export and pickle; sys.setswitchinterval(1e-6),
+   seeded yields at statement boundaries of tatsu/util/asjson.py (sys.monitoring LINE), values whose __json__
+   yields, and a forced schedule (one thread suspended at its N-th statement inside asjson.py while the others
+   convert).  Oracle: every thread's result equals the sequential result of the very same call computed before
+   the threads start (which is also what makes "only cycles are rendered as references" and "loads back"
+   decidable per thread); the model is written out and loaded back once more after the threads;
  * termination is decided on logical steps: a sys.monitoring PY_START counter on the code objects
    of tatsu/util/asjson.py must stay below C x (size of the object graph reachable from the input,
    computed by an independent id()-based walk); RecursionError on the small structures used is
@@ -29,6 +38,7 @@ import weakref
 from .. import lang as L
 from .. import shrink as S
 from ..common import h64
+from ..monitors import c14_threads as CT
 from ..monitors import jsonsteps as JS
 from ..monitors import modelgen as MG
 from .c13 import Hang, guard, mech_sig
@@ -44,7 +54,11 @@ RULE = ('programs = grammar models (text route, object route; the full expressio
         'semantic actions in real parses (self-referential lists/dicts/objects, parent links, shared sub-lists, '
         'diamond chains, exotic leaf values). non-trivial = a reload succeeded and at least one input was ACCEPTED, or '
         'an asjson conversion finished under the step monitor; distinct by (route, grammar text) / (structure kind, '
-        'shape)')
+        'shape). concurrent runs = (subject kind in same-grammar-model / same-parse-result / shared-subobjects / real-cycles) x '
+        'K in {2,4,8} threads x per-thread entry point x schedule (seeded yields at statement boundaries of asjson.py | one '
+        'thread suspended at its N-th statement there while the others convert) x 3 barrier-released rounds; non-trivial = '
+        'at least one yield/pause was injected and every sequential conversion succeeded; distinct by (kind, K, schedule, '
+        'subject, entry points) and by interleaving signature (first 96 observed thread switches)')
 ASSUMPTIONS = [
     'the original in-memory model is the reference; equal export = m.asjson() equality, behaviour = accept/reject, '
     'exception class, canonical AST (lists/tuples unified, parseinfo dropped)',
@@ -54,6 +68,11 @@ ASSUMPTIONS = [
     'reference rendering makes the conversion linear in that size, full expansion of shared sub-structures does not',
     'shared but acyclic references that are duplicated in the output are accepted as long as the step bound holds '
     '(the documentation only promises back references); they are counted',
+    'concurrent slice: the reference of a thread is the sequential result of the same call on the same object, computed '
+    'twice before the threads start (a conversion that is not repeatable sequentially, e.g. of a generator, is excluded '
+    'and counted); exceptions are compared by class; reference strings carry id()s, which are equal because the very '
+    'same objects are converted; a run in which nothing was injected is not counted as a thread run (floor on '
+    'thread_runs); watchdog expiry of a suspended thread is reported as a hang, never used as a clock for a verdict',
     'a failing model containing hostile forms already known to be mishandled is attributed by neutralising one form '
     'at a time (as in C13); a per-case CPU-time guard turns a hang into a counted skip',
 ]
@@ -68,13 +87,27 @@ FLOORS = {
               'feat:assoc_join:right': 50, 'feat:assoc_join_multiline': 25, 'feat:empty_constant': 50,
               'feat:nonfinite_float': 100, 'feat:nonfinite_float:constant': 60, 'feat:nonfinite_float:param': 45,
               'feat:numeric_first_param': 80, 'source_route_parser_class_with_directives': 200,
-              'parser_class_calls': 6000},
+              'parser_class_calls': 6000,
+              'thread_runs': 340, 'thread_runs:same-grammar-model': 80, 'thread_runs:same-parse-result': 80,
+              'thread_runs:shared-subobjects': 80, 'thread_runs:real-cycles': 80, 'thread_runs:k=2': 60,
+              'thread_runs:k=4': 60, 'thread_runs:k=8': 60, 'thread_runs:schedule=pause': 100,
+              'thread_runs:schedule=yields': 100, 'thread_yields_injected': 40000, 'thread_forced_pauses': 200,
+              'thread_structure_yields': 300, 'thread_results_compared': 3000,
+              'thread_results_with_references_expected': 300, 'thread_roundtrips_loaded_after_threads': 60,
+              'thread_distinct_interleavings': 200, 'thread_switches_observed': 5000},
     'thorough': {'programs': 15000, 'json_reloaded': 12000, 'pickle_reloaded': 15000, 'source_reloaded': 7000,
                  'both_accepted': 60000, 'asjson_runs': 80000, 'asjson_cyclic': 15000, 'asjson_shared': 8000,
                  'step_monitor_events': 6000000, 'hazard_free_programs': 9000, 'feat:long_keywords': 600,
                  'feat:assoc_join': 1000, 'feat:assoc_join_multiline': 250, 'feat:empty_constant': 500,
                  'feat:nonfinite_float': 1000, 'feat:numeric_first_param': 800,
-                 'source_route_parser_class_with_directives': 2000},
+                 'source_route_parser_class_with_directives': 2000,
+                 'thread_runs': 2700, 'thread_runs:same-grammar-model': 640, 'thread_runs:same-parse-result': 640,
+                 'thread_runs:shared-subobjects': 640, 'thread_runs:real-cycles': 640, 'thread_runs:k=2': 480,
+                 'thread_runs:k=4': 480, 'thread_runs:k=8': 480, 'thread_runs:schedule=pause': 800,
+                 'thread_runs:schedule=yields': 800, 'thread_yields_injected': 320000, 'thread_forced_pauses': 1600,
+                 'thread_structure_yields': 2400, 'thread_results_compared': 24000,
+                 'thread_results_with_references_expected': 2400, 'thread_roundtrips_loaded_after_threads': 480,
+                 'thread_distinct_interleavings': 1600, 'thread_switches_observed': 40000},
 }
 N = {'quick': 1920, 'thorough': 19200}
 INPUTS = {'quick': 5, 'thorough': 6}
@@ -87,7 +120,8 @@ MON = JS.StepMonitor()
 
 def plan(tier, seed):
     k = 16 if tier == 'quick' else 64
-    return [{'seed': seed, 'shard': i, 'n': N[tier] // k, 'inputs': INPUTS[tier], 'of': k} for i in range(k)]
+    return [{'seed': seed, 'shard': i, 'n': N[tier] // k, 'inputs': INPUTS[tier], 'of': k, 'threads': THREAD_RUNS[tier]}
+            for i in range(k)]
 
 
 # --------------------------------------------------------------------------- hazards of this property
@@ -1113,6 +1147,400 @@ def object_model_with(value, cycle=True):
     return node
 
 
+# --------------------------------------------------------------------------- concurrent conversions
+# K threads released by a barrier convert the same object / structures sharing a sub-object; every thread's result
+# must equal the sequential result of the very same conversion computed before the threads start (DESIGN 3/C14).
+SCHED = CT.Sched()
+THREAD_KINDS = ('same-grammar-model', 'same-parse-result', 'shared-subobjects', 'real-cycles')
+THREAD_RUNS = {'quick': 24, 'thorough': 48}
+MODEL_OPS = ('x.asjson()', 'x.asjson()', 'x.asjson()', 'asjson(x)', 'asjson(x)', 'json.dumps(asjson(x))', 'x.asjsons()',
+             'Grammar.load', 'Grammar.loads', 'pickle')
+VALUE_OPS = ('asjson(x)', 'asjson(x)', 'x.asjson()', 'x.asjson()', 'json.dumps(asjson(x))', 'asjsons(x)')
+STRING_OPS = ('json.dumps(asjson(x))', 'x.asjsons()', 'asjsons(x)')
+THREAD_EXOTIC = [x for x in EXOTIC if x != 'generator']        # a generator can be converted only once
+THREAD_SHAPES = ('plain', 'shared', 'sharedict', 'diamond', 'diamonddict', 'exotic', 'yielder', 'yielder')
+
+
+class Yielder:
+    """a user value inside a parse result that renders itself (the __json__ protocol) and gives up the processor
+    half way through the conversion"""
+    calls = 0
+
+    def __init__(self, v):
+        self.v = v
+
+    def __json__(self, seen=None):
+        import time
+
+        from tatsu.util.asjson import asjson
+        Yielder.calls += 1
+        time.sleep(0)
+        out = {'y': asjson(self.v, seen=seen)}
+        time.sleep(0)
+        return out
+
+
+class YielderSemantics:
+    def item(self, ast):
+        return Yielder([ast, {'v': ast}])
+
+    def items(self, ast):
+        return {'all': ast, 'first': Yielder(ast[0] if ast else None)}
+
+
+def apply_op(op, x):
+    from tatsu import peg
+    from tatsu.util.asjson import asjson, asjsons
+    if op == 'asjson(x)':
+        return asjson(x)
+    if op == 'x.asjson()':
+        return x.asjson()
+    if op == 'json.dumps(asjson(x))':
+        return json.dumps(asjson(x), allow_nan=True)
+    if op == 'x.asjsons()':
+        return x.asjsons()
+    if op == 'asjsons(x)':
+        return asjsons(x)
+    if op == 'Grammar.load':
+        return export(peg.Grammar.load(json.loads(json.dumps(x.asjson(), allow_nan=True))))
+    if op == 'Grammar.loads':
+        return export(peg.Grammar.loads(x.asjsons()))
+    if op == 'pickle':
+        return export(pickle.loads(pickle.dumps(x)))
+    raise KeyError(op)
+
+
+def op_outcome(op, x):
+    """canonical comparable outcome of one conversion: ('json', text) | ('str', text) | ('repr', text) | ('exc', class, line)"""
+    try:
+        res = apply_op(op, x)
+    except RecursionError:
+        return ('exc', 'RecursionError', '')
+    except Exception as e:  # noqa: BLE001 - observation
+        return ('exc', type(e).__name__, short(e))
+    if op in STRING_OPS and isinstance(res, str):
+        return ('str', res)
+    try:
+        return ('json', json.dumps(res, allow_nan=True))
+    except Exception:  # noqa: BLE001
+        return ('repr', repr(res))
+
+
+def same_outcome(a, b):
+    return a[:2] == b[:2] if (a[0] == 'exc' or b[0] == 'exc') else a == b
+
+
+def outcome_data(o):
+    if o[0] in ('json', 'str'):
+        try:
+            return True, json.loads(o[1])
+        except Exception:  # noqa: BLE001
+            pass
+    return False, None
+
+
+def thread_diffkind(exp, obs):
+    """-> (mechanism-level kind, readable detail)"""
+    if obs is None:
+        return 'no-result', 'the thread did not deliver a result'
+    if obs[0] == 'exc':
+        return f'raises:{obs[1]}', f'raised {obs[1]}: {obs[2]}' + (f' (sequentially: {exp[1]})' if exp[0] == 'exc' else '')
+    if exp[0] == 'exc':
+        return 'succeeds-where-sequential-raises', f'sequentially raised {exp[1]}: {exp[2]}, in the thread gave {obs[1][:120]}'
+    ok1, d1 = outcome_data(exp)
+    ok2, d2 = outcome_data(obs)
+    if not (ok1 and ok2):
+        return 'text-differs', f'{exp[1][:100]!r} -> {obs[1][:100]!r}'
+    path, a, b = first_diff(d1, d2)
+    a_ref = isinstance(a, str) and bool(REF_RX.match(a))
+    b_ref = isinstance(b, str) and bool(REF_RX.match(b))
+    if b_ref and not a_ref:
+        return ('reference-string-for-object-not-in-a-cycle',
+                f'at {path} the sequential conversion gives {str(a)[:80]!r} ({type(a).__name__}), the thread got the reference string {b!r}')
+    if a_ref and not b_ref:
+        return 'cycle-reference-missing', f'at {path} the sequential conversion gives the reference {a!r}, the thread got {str(b)[:80]!r}'
+    return 'value-differs', f'at {path}: {str(a)[:80]!r} -> {str(b)[:80]!r}'
+
+
+def first_diff(a, b, path='$'):
+    if type(a) is type(b):
+        if isinstance(a, dict):
+            for k in a:
+                if k not in b:
+                    return f'{path}.{k}', a[k], '<missing>'
+                if a[k] != b[k] and not (a[k] != a[k] and b[k] != b[k]):
+                    return first_diff(a[k], b[k], f'{path}.{k}')
+            for k in b:
+                if k not in a:
+                    return f'{path}.{k}', '<missing>', b[k]
+        elif isinstance(a, list):
+            for i, (x, y) in enumerate(zip(a, b)):
+                if x != y and not (x != x and y != y):
+                    return first_diff(x, y, f'{path}[{i}]')
+            if len(a) != len(b):
+                return f'{path}[{min(len(a), len(b))}]', f'<length {len(a)}>', f'<length {len(b)}>'
+    return path, a, b
+
+
+def thread_cfg(seed, shard, i):
+    rng = random.Random(h64('C14', 'threads', seed, shard, i))
+    return {'kind': 'threads', 'subject': THREAD_KINDS[(i + shard) % len(THREAD_KINDS)], 'k': rng.choice((2, 4, 8)),
+            'schedule': rng.choice(('pause', 'yields')), 'p': rng.choice((0.01, 0.03, 0.1)), 'rounds': 3,
+            'seed': h64('C14', 'thread-run', seed, shard, i), 'origin': {'seed': seed, 'shard': shard, 'i': i}}
+
+
+def _thread_model(rng, acc):
+    """a generated grammar model (object route mostly) with its start rule and inputs, or None"""
+    import tatsu
+    for _ in range(4):
+        g, start, feats, pats = gen_case(rng)
+        try:
+            if rng.random() < 0.06:
+                model = tatsu.compile(MG.gtext(g), name='T')
+            else:
+                model = MG.build_model(g, name='T')
+            inputs = MG.gen_inputs(rng, g, start, 4, pats)
+        except Hang:
+            raise
+        except Exception as e:  # noqa: BLE001
+            acc.count('thread_subject_build_failed:' + type(e).__name__)
+            continue
+        return model, start, inputs, MG.gtext(g)
+    return None
+
+
+def _parse_result(rng, acc, want_cycle=False):
+    """-> (value, description) a parse result of a real parse: AST / object model of a generated grammar, or a
+    structure built by semantic actions of the shape grammar"""
+    if not want_cycle and rng.random() < 0.45:
+        got = _thread_model(rng, acc)
+        if got:
+            model, start, inputs, gtext = got
+            asmodel = rng.random() < 0.5
+            for text in inputs:
+                try:
+                    v = model.parse(text, start=start, asmodel=asmodel)
+                except Hang:
+                    raise
+                except Exception:  # noqa: BLE001
+                    continue
+                if graph_size(v) >= 5:
+                    return v, f'{"object model" if asmodel else "AST"} of {text!r} under grammar {gtext.strip()!r}'
+    shape = rng.choice(CYCLIC_SHAPES) if want_cycle else rng.choice(THREAD_SHAPES)
+    arg = rng.choice(THREAD_EXOTIC) if shape == 'exotic' else None
+    text, _ = shape_input(rng, shape, depth=rng.choice((1, 2, 3, 4)) if shape.startswith('diamond') else None)
+    sem = YielderSemantics() if shape == 'yielder' else ShapeSemantics(shape, arg)
+    v = shape_model().parse(text, semantics=sem)
+    desc = f'action-built:{shape}{":" + arg if arg else ""} from {text!r}'
+    if rng.random() < 0.3:
+        v = object_model_with(v, cycle=want_cycle)
+        desc = 'object model node holding ' + desc
+    return v, desc
+
+
+def _wrap(rng, t, shared):
+    """a structure of thread t's own around the shared sub-object"""
+    from tatsu.contexts import AST
+    w = rng.choice(('list', 'dict', 'ast', 'withjson', 'tuple', 'node'))
+    if w == 'list':
+        return [t, shared]
+    if w == 'dict':
+        return {'who': t, 'v': shared, 'again': [shared]}
+    if w == 'ast':
+        return AST(who=t, v=shared)
+    if w == 'withjson':
+        return WithJson([t, shared])
+    if w == 'tuple':
+        return (shared, t)
+    return object_model_with([t, shared], cycle=False)
+
+
+def value_ops(rng, x):
+    ops = [o for o in VALUE_OPS if o != 'x.asjson()' or callable(getattr(x, 'asjson', None))]
+    return rng.choice(ops)
+
+
+def build_thread_subjects(cfg, rng, acc):
+    """-> (subjects per thread, op per thread, description) or None"""
+    kind, k = cfg['subject'], cfg['k']
+    if kind == 'same-grammar-model':
+        got = _thread_model(rng, acc)
+        if not got:
+            return None
+        model, _start, _inputs, gtext = got
+        return [model] * k, [rng.choice(MODEL_OPS) for _ in range(k)], f'grammar model {gtext.strip()!r}'
+    if kind == 'same-parse-result':
+        v, desc = _parse_result(rng, acc)
+        return [v] * k, [value_ops(rng, v) for _ in range(k)], desc
+    if kind == 'shared-subobjects':
+        r = rng.random()
+        if r < 0.3:
+            got = _thread_model(rng, acc)
+            if not got:
+                return None
+            model = got[0]
+            shared = model if rng.random() < 0.5 else model.rules[0]
+            desc = ('the grammar model ' if shared is model else 'the first rule of ') + repr(got[3].strip())
+        else:
+            shared, desc = _parse_result(rng, acc)
+        subs = [_wrap(rng, t, shared) for t in range(k)]
+        return subs, [value_ops(rng, s) for s in subs], 'per-thread structures sharing ' + desc
+    # real cycles: the same cyclic object, or per-thread structures around one cyclic object
+    v, desc = _parse_result(rng, acc, want_cycle=True)
+    if rng.random() < 0.5:
+        return [v] * k, [value_ops(rng, v) for _ in range(k)], 'cyclic ' + desc
+    subs = [_wrap(rng, t, v) for t in range(k)]
+    return subs, [value_ops(rng, s) for s in subs], 'per-thread structures sharing cyclic ' + desc
+
+
+def thread_case(acc, cfg, rep=0):
+    """one concurrent run; True when a violation was reported"""
+    if not MON.available:
+        MON.install()
+    if not SCHED.install(MON.codes):
+        acc.note('thread scheduler unavailable: ' + str(SCHED.note))
+    rng = random.Random(h64(cfg['seed'], rep))
+    kind, k, rounds = cfg['subject'], cfg['k'], cfg['rounds']
+    try:
+        built = build_thread_subjects(cfg, rng, acc)
+    except Hang:
+        raise
+    except Exception as e:  # noqa: BLE001
+        acc.count('thread_subject_build_failed:' + type(e).__name__)
+        return False
+    if built is None:
+        acc.count('thread_subject_unavailable')
+        return False
+    subjects, ops, desc = built
+    SCHED.start()
+    try:
+        # ---- the sequential results, before any thread exists (twice: the conversion must be repeatable at all)
+        expected, lines = [], []
+        for t in range(k):
+            e1, n1 = CT.measure(SCHED, lambda t=t: op_outcome(ops[t], subjects[t]))
+            e2, _ = CT.measure(SCHED, lambda t=t: op_outcome(ops[t], subjects[t]))
+            if not same_outcome(e1, e2):
+                acc.count('thread_conversion_not_repeatable_sequentially')
+                e1 = None
+            expected.append(e1)
+            lines.append(n1)
+        load_before = None
+        if kind == 'same-grammar-model':
+            load_before = op_outcome('Grammar.load', subjects[0])
+        pause_points = []
+        for r in range(rounds):
+            who = rng.randrange(k)
+            pause_points.append((who, rng.randint(1, max(lines[who], 1))))
+        y0 = Yielder.calls
+        jobs = [(lambda t=t: op_outcome(ops[t], subjects[t])) for t in range(k)]
+        # small subjects: at least ~6 expected yields per conversion (decided by the seeded line count, not by time)
+        p = max(cfg['p'], min(0.5, 6 / max(min(lines), 1)))
+        obs = CT.run_threads(SCHED, jobs, rounds, p, cfg['schedule'], pause_points, h64(cfg['seed'], rep))
+        struct_yields = Yielder.calls - y0
+        load_after = op_outcome('Grammar.load', subjects[0]) if load_before is not None else None
+    finally:
+        SCHED.stop()
+    injected = obs['yields'] + obs['pauses'] + struct_yields
+    wit = {'kind': 'threads', **cfg['origin']}
+    found = False
+    if obs['hung'] or obs['timeouts']:
+        found = True
+        acc.violation(f'asjson-threads/{kind}/hang',
+                      f'{obs["hung"]} of {k} threads converting {desc} did not finish ({obs["timeouts"]} watchdog expiries, '
+                      f'schedule {cfg["schedule"]})', wit)
+    if injected == 0:
+        # nothing was injected: the run explored no interleaving on purpose; it is not evidence
+        acc.count('thread_runs_without_injection')
+    else:
+        acc.count('thread_runs')
+        acc.count('thread_runs:' + kind)
+        acc.count(f'thread_runs:k={k}')
+        acc.count('thread_runs:schedule=' + cfg['schedule'])
+        acc.count('thread_yields_injected', obs['yields'])
+        acc.count('thread_forced_pauses', obs['pauses'])
+        acc.count('thread_structure_yields', struct_yields)
+        acc.count('thread_switches_observed', obs['switches'])
+        if obs['nsig'] >= 4:
+            acc.nontriv('interleave', obs['sig'])
+            THREAD_SIGS.add(obs['sig'])
+    seen_sigs = set()
+    for t in range(k):
+        exp = expected[t]
+        if exp is None:
+            continue
+        for r in range(rounds):
+            got = obs['results'][t][r]
+            if got is None and obs['hung']:
+                continue
+            if injected:
+                acc.evaluations += 1
+                acc.count('thread_results_compared')
+                acc.count('thread_results_compared:' + ops[t])
+                if exp[0] != 'exc':
+                    acc.count('thread_results_compared_ok_sequentially')
+                    if exp[0] in ('json', 'str') and '@0x' in exp[1]:
+                        acc.count('thread_results_with_references_expected')
+            if got is not None and same_outcome(exp, got):
+                continue
+            dk, detail = thread_diffkind(exp, got)
+            sig = f'asjson-threads/{kind}/{dk}'
+            acc.count('disagreements_checked')
+            if sig in seen_sigs:
+                continue
+            seen_sigs.add(sig)
+            found = True
+            extra = ''
+            if kind == 'same-grammar-model' and got is not None and got[0] in ('json', 'str') and ops[t] in (
+                    'x.asjson()', 'asjson(x)', 'json.dumps(asjson(x))', 'x.asjsons()'):
+                ok, data = outcome_data(got)
+                if ok:
+                    lo = load_outcome(data)
+                    extra = f'; Grammar.load of the thread\'s JSON: {lo}'
+            who = (f'thread {t} (round {r}, {cfg["schedule"]} schedule' +
+                   (f', thread {pause_points[r][0]} suspended at its statement {pause_points[r][1]} inside asjson.py'
+                    if cfg['schedule'] == 'pause' else f', yield probability {p:.3f}') + ')')
+            acc.violation(sig, f'{k} threads converting {desc}: {ops[t]} in {who} differs from the sequential result of '
+                               f'the same call: {detail}{extra}', wit)
+    if load_before is not None and injected:
+        acc.count('thread_roundtrips_loaded_after_threads')
+        if not same_outcome(load_before, load_after):
+            dk, detail = thread_diffkind(load_before, load_after)
+            found = True
+            acc.violation(f'asjson-threads/{kind}/load-after-threads/{dk}',
+                          f'after {k} threads converted {desc}, writing the model out and loading it back no longer gives '
+                          f'what it gave before the threads: {detail}', wit)
+    if injected and all(e is not None and e[0] != 'exc' for e in expected):
+        acc.nontriv('threadrun', kind, k, cfg['schedule'], desc[:300], tuple(ops))
+    return found
+
+
+THREAD_SIGS = set()
+
+
+def load_outcome(data):
+    from tatsu import peg
+    try:
+        m = peg.Grammar.load(data)
+        return f'loads, {len(m.rules)} rules'
+    except RecursionError:
+        return 'raises RecursionError'
+    except Exception as e:  # noqa: BLE001
+        return 'raises ' + short(e)
+
+
+def run_thread_slice(desc, acc, n):
+    for i in range(n):
+        cfg = thread_cfg(desc['seed'], desc['shard'], i)
+        try:
+            with guard():
+                thread_case(acc, cfg)
+        except Hang:
+            acc.count('hang_guard_skips')
+            acc.note('a concurrent run was skipped by the CPU-time hang guard')
+    acc.count('thread_distinct_interleavings', len(THREAD_SIGS))
+    SCHED.uninstall()
+
+
 # --------------------------------------------------------------------------- shard
 def route_for(i):
     return 'text' if i % 5 in (0, 3) else 'object'
@@ -1155,11 +1583,21 @@ def run_shard(desc, acc):
                     do_shape_case(acc, rng, {'fixed': kw}, **kw)
             except Hang:
                 acc.count('hang_guard_skips')
+    run_thread_slice(desc, acc, desc.get('threads', 0))
 
 
 def replay(w, acc):
     MON.install()
     kind = w.get('kind')
+    if kind == 'threads':
+        cfg = thread_cfg(w['seed'], w['shard'], w['i'])
+        try:
+            for rep in range(6):
+                if thread_case(acc, cfg, rep=rep):
+                    break
+        finally:
+            SCHED.uninstall()
+        return
     if kind == 'model':
         g = L.from_json(w['grammar'])
         fails, stats, _ = run_model_case(acc, g, w['start'], w['route'], w['inputs'])
@@ -1186,7 +1624,8 @@ def replay(w, acc):
 MANIFEST = {
     'technique': 'runtime monitoring: round-trip differential of the real serialisers (JSON export/import, pickle, model '
                  'source generation + exec) against the original model, and a sys.monitoring logical-step monitor + '
-                 'json.dumps acceptance on tatsu.util.asjson over parse results and action-built structures',
+                 'json.dumps acceptance on tatsu.util.asjson over parse results and action-built structures; concurrent '
+                 'conversions of shared objects under injected yields / forced suspensions compared with the sequential result',
     'level_text': 'each grammar model is a program translated by a real serializer and loaded back by the real loader; the '
                   'translation is validated by comparing the exported structure, rules/directives/keywords and behaviour on '
                   'inputs; asjson conversions run under a step monitor whose bound is linear in an independently measured '
